@@ -746,6 +746,201 @@ fn run_shortstruct(len: usize, unit: &Value, only: Option<&[Tok]>, ctx: &mut Ctx
     });
 }
 
+// ------------------------------------------------------------------------------------------
+// a group whose leading flag has several names (-p, --point, --pt): a block may be spelled with
+// any of them
+// ------------------------------------------------------------------------------------------
+fn aliasgroup_opts() -> Opts {
+    let pos = |m: &str| P::Pos { ty: Ty::Os, strict: Strict::Any, metavar: m.into(), help: None };
+    let lead = P::ReqFlag(Names { shorts: vec!['p'], longs: vec!["point".into(), "pt".into()], envs: vec![], help: None, long_first: false });
+    Opts::new(P::Seq(vec![P::Switch(Names::short('v')), P::Adj(vec![lead, pos("X"), pos("Y")]).many()]))
+}
+
+fn run_aliasgroup(len: usize, unit: &Value, only: Option<&[Tok]>, ctx: &mut Ctx) {
+    let p = match build_checked(&aliasgroup_opts()) {
+        Ok(p) => p,
+        Err(_) => return,
+    };
+    let alpha = toks(&["--point", "1", "2", "-v"]);
+    tree(&alpha, len, &mut |argv| {
+        ctx.s.states += 1;
+        let base = match run(&p, argv) {
+            Outcome::Value(v) => v,
+            _ => return true,
+        };
+        let occ: Vec<usize> = argv.iter().enumerate().filter(|(_, t)| t.0 == b"--point").map(|(i, _)| i).collect();
+        if occ.is_empty() || occ.len() > 3 {
+            return true;
+        }
+        let spell = ["--point", "--pt", "-p"];
+        let mut ix = vec![0usize; occ.len()];
+        loop {
+            // next assignment
+            let mut k = 0;
+            loop {
+                if k == ix.len() {
+                    return true;
+                }
+                ix[k] += 1;
+                if ix[k] < spell.len() {
+                    break;
+                }
+                ix[k] = 0;
+                k += 1;
+            }
+            let mut alt = argv.to_vec();
+            for (o, s) in occ.iter().zip(ix.iter()) {
+                alt[*o] = Tok::s(spell[*s]);
+            }
+            if only.map_or(false, |o| o != alt.as_slice()) {
+                continue;
+            }
+            ctx.begin_case(|| json!({"argv": alt}));
+            ctx.s.evaluations += 1;
+            ctx.s.transitions += 1;
+            match run(&p, &alt) {
+                Outcome::Value(v) if v == base => {
+                    ctx.s.nontrivial += 1;
+                    ctx.s.validated += 1;
+                    ctx.count("blocks-spelled-with-another-name-judged");
+                }
+                other => {
+                    let mut sig = BTreeMap::new();
+                    sig.insert("clause".to_string(), "any-name-of-the-leading-flag-starts-a-block".to_string());
+                    sig.insert("observed".to_string(), other.class().to_string());
+                    ctx.violation(Violation { property: "C19".into(), rule: "any-name-of-the-leading-flag-starts-a-block".into(), sig, unit: unit.clone(), case: json!({"argv": alt}), expected: format!("{:?} (the value of the line spelled with --point)", base), observed: other.brief(), size: alt.len() * 1000 });
+                }
+            }
+        }
+    });
+}
+
+// ------------------------------------------------------------------------------------------
+// a group led by a valued item and closed by a positional (--at A B) beside free positionals: a
+// word in front of the block is not part of it
+// ------------------------------------------------------------------------------------------
+fn atgroup_opts(w: W, t: T) -> Opts {
+    let pos = |m: &str| P::Pos { ty: Ty::Os, strict: Strict::Any, metavar: m.into(), help: None };
+    let g = P::Adj(vec![P::arg(Names::long("at"), Ty::Os), pos("B")]);
+    let gw = match w {
+        W::Bare => g,
+        W::Opt => g.opt(),
+        W::Many => g.many(),
+    };
+    let mut fields = vec![P::Switch(Names::short('v')), gw];
+    match t {
+        T::None => {}
+        T::Opt => fields.push(pos("FILE").opt()),
+        T::Many => fields.push(pos("FILE").many()),
+    }
+    Opts::new(P::Seq(fields))
+}
+
+fn atgroup_model(w: W, t: T, argv: &[Tok]) -> Option<Val> {
+    let mut v = 0;
+    let mut blocks = vec![];
+    let mut files = vec![];
+    let mut i = 0;
+    let plain = |i: usize| i < argv.len() && is_word(&argv[i]);
+    while i < argv.len() {
+        let tk = &argv[i];
+        if tk.0 == b"-v" {
+            v += 1;
+            i += 1;
+        } else if tk.0 == b"--at" {
+            if !plain(i + 1) || !plain(i + 2) {
+                return None;
+            }
+            blocks.push(Val::T(vec![Val::S(argv[i + 1].clone()), Val::S(argv[i + 2].clone())]));
+            i += 3;
+        } else if let Some(a) = tk.0.strip_prefix(b"--at=") {
+            if !plain(i + 1) {
+                return None;
+            }
+            blocks.push(Val::T(vec![Val::S(Tok(a.to_vec())), Val::S(argv[i + 1].clone())]));
+            i += 2;
+        } else if is_word(tk) {
+            files.push(Val::S(tk.clone()));
+            i += 1;
+        } else {
+            return None;
+        }
+    }
+    if v > 1 {
+        return None;
+    }
+    let g = match w {
+        W::Bare => {
+            if blocks.len() != 1 {
+                return None;
+            }
+            blocks.pop().unwrap()
+        }
+        W::Opt => match blocks.len() {
+            0 => Val::No,
+            1 => Val::some(blocks.pop().unwrap()),
+            _ => return None,
+        },
+        W::Many => Val::L(blocks),
+    };
+    let mut out = vec![Val::B(v == 1), g];
+    match t {
+        T::None => {
+            if !files.is_empty() {
+                return None;
+            }
+        }
+        T::Opt => match files.len() {
+            0 => out.push(Val::No),
+            1 => out.push(Val::some(files.pop().unwrap())),
+            _ => return None,
+        },
+        T::Many => out.push(Val::L(files)),
+    }
+    Some(Val::T(out))
+}
+
+fn run_atgroup(w: W, t: T, len: usize, unit: &Value, only: Option<&[Tok]>, ctx: &mut Ctx) {
+    let p = match build_checked(&atgroup_opts(w, t)) {
+        Ok(p) => p,
+        Err(_) => return,
+    };
+    let mut one = |argv: &[Tok], ctx: &mut Ctx| {
+        ctx.begin_case(|| json!({"argv": argv}));
+        ctx.s.evaluations += 1;
+        ctx.s.states += 1;
+        let m = atgroup_model(w, t, argv);
+        let r = run(&p, argv);
+        let ok = match (&m, &r) {
+            (Some(a), Outcome::Value(b)) => a == b,
+            (None, Outcome::Stderr(x)) => !x.trim().is_empty(),
+            _ => false,
+        };
+        if ok {
+            if argv.iter().any(|x| x.0.starts_with(b"--at")) {
+                ctx.s.nontrivial += 1;
+            }
+            ctx.s.validated += 1;
+            ctx.count("valued-led-groups-beside-free-positionals-judged");
+        } else {
+            let mut sig = BTreeMap::new();
+            sig.insert("clause".to_string(), "block-is-the-leading-item-and-its-contiguous-members".to_string());
+            sig.insert("expected".to_string(), if m.is_some() { "value" } else { "failure" }.to_string());
+            sig.insert("observed".to_string(), r.class().to_string());
+            ctx.violation(Violation { property: "C19".into(), rule: "block-scanner-agrees".into(), sig, unit: unit.clone(), case: json!({"argv": argv}), expected: match &m { Some(v) => format!("{:?}", v), None => "a failure with a message".into() }, observed: r.brief(), size: argv.len() * 1000 });
+        }
+    };
+    if let Some(a) = only {
+        one(a, ctx);
+        return;
+    }
+    let alpha = toks(&["--at", "--at=1", "2", "7", "-v"]);
+    tree(&alpha, len, &mut |argv| {
+        one(argv, ctx);
+        true
+    });
+}
+
 impl Check for C19 {
     fn id(&self) -> &'static str {
         "C19"
@@ -772,11 +967,27 @@ impl Check for C19 {
             }
         }
         out.push(json!({"shortstruct": tier.pick(6, 7)}));
+        out.push(json!({"aliasgroup": tier.pick(7, 8)}));
+        for w in [W::Bare, W::Opt, W::Many] {
+            for t in [T::None, T::Opt, T::Many] {
+                out.push(json!({"atgroup": [serde_json::to_value(w).unwrap(), serde_json::to_value(t).unwrap()], "len": tier.pick(6, 7)}));
+            }
+        }
         out
     }
     fn run_unit(&self, unit: &Value, ctx: &mut Ctx) {
         if let Some(n) = unit.get("shortstruct").and_then(|n| n.as_u64()) {
             run_shortstruct(n as usize, unit, None, ctx);
+            return;
+        }
+        if let Some(n) = unit.get("aliasgroup").and_then(|n| n.as_u64()) {
+            run_aliasgroup(n as usize, unit, None, ctx);
+            return;
+        }
+        if let Some(wt) = unit.get("atgroup") {
+            let w: W = serde_json::from_value(wt[0].clone()).unwrap();
+            let t: T = serde_json::from_value(wt[1].clone()).unwrap();
+            run_atgroup(w, t, unit["len"].as_u64().unwrap_or(5) as usize, unit, None, ctx);
             return;
         }
         if let Some(n) = unit.get("nest") {
@@ -821,6 +1032,18 @@ impl Check for C19 {
             run_shortstruct(n as usize, unit, Some(&argv), ctx);
             return;
         }
+        if let Some(n) = unit.get("aliasgroup").and_then(|n| n.as_u64()) {
+            let argv: Vec<Tok> = serde_json::from_value(case["argv"].clone()).unwrap_or_default();
+            run_aliasgroup(n as usize, unit, Some(&argv), ctx);
+            return;
+        }
+        if let Some(wt) = unit.get("atgroup") {
+            let w: W = serde_json::from_value(wt[0].clone()).unwrap();
+            let t: T = serde_json::from_value(wt[1].clone()).unwrap();
+            let argv: Vec<Tok> = serde_json::from_value(case["argv"].clone()).unwrap_or_default();
+            run_atgroup(w, t, 0, unit, Some(&argv), ctx);
+            return;
+        }
         if let Some(n) = unit.get("nest") {
             let d: NestDef = serde_json::from_value(n.clone()).unwrap();
             let argv: Vec<Tok> = serde_json::from_value(case["argv"].clone()).unwrap_or_default();
@@ -838,7 +1061,7 @@ impl Check for C19 {
         }
     }
     fn rule(&self) -> String {
-        "definitions = {--point X | X Y | X Y Z, --point --w W --h H [--o], --point --w W X, --x X --y Y (a group starting with a valued item)} x {bare, optional, many} x {no, optional, repeated trailing positional} x {neighbouring switch absent, declared before, declared after}; plus blocks inside blocks: an adjacent command (bare / optional / many) whose sub-parser holds a repeated adjacent group --point X [Y] (and optionally its own switch) beside a top-level switch, all vectors of length <= 6-7 over {cmd, --point, 1, 2, -v, -x}; every vector of the token tree over 6-8 tokens (leading flag, members, inline member, words, foreign -v / --zz, `--`); each node judged by the block scanner (a block = leading flag + contiguous members; one value per block; everything else belongs to the surrounding level); state = (definition, vector), transition = append token; non-trivial = judged vector containing the group's leading flag; plus an option-struct with short names (-r [-t] [-f] -w W under many): every way of joining neighbouring words of an accepted spelled-out line gives the same value".into()
+        "definitions = {--point X | X Y | X Y Z, --point --w W --h H [--o], --point --w W X, --x X --y Y (a group starting with a valued item)} x {bare, optional, many} x {no, optional, repeated trailing positional} x {neighbouring switch absent, declared before, declared after}; plus blocks inside blocks: an adjacent command (bare / optional / many) whose sub-parser holds a repeated adjacent group --point X [Y] (and optionally its own switch) beside a top-level switch, all vectors of length <= 6-7 over {cmd, --point, 1, 2, -v, -x}; every vector of the token tree over 6-8 tokens (leading flag, members, inline member, words, foreign -v / --zz, `--`); each node judged by the block scanner (a block = leading flag + contiguous members; one value per block; everything else belongs to the surrounding level); state = (definition, vector), transition = append token; non-trivial = judged vector containing the group's leading flag; plus an option-struct with short names (-r [-t] [-f] -w W under many): every way of joining neighbouring words of an accepted spelled-out line gives the same value; plus a group whose leading flag has three names (-p, --point, --pt): every respelling of the leading flags of an accepted line gives the same value; plus a group led by a valued item and closed by a positional (--at A B; bare / optional / many) beside no / an optional / repeated free positionals, judged by its own block scanner".into()
     }
     fn bounds(&self, tier: Tier) -> Value {
         json!({"vector_length": tier.pick("6 (5 for the 4-member option-struct, 7 nested)", "7 (8 for --point X Y Z and nested)"), "blocks": "0..3 per line within that length"})
